@@ -277,7 +277,7 @@ func (a *Alt) bodyText() string {
 }
 
 func quoteLit(s string) string {
-	if strings.ContainsAny(s, "\"\\") && !strings.Contains(s, "`") {
+	if strings.ContainsAny(s, "\"\\\n\t\r") && !strings.Contains(s, "`") {
 		return "`" + s + "`"
 	}
 	return strconv.Quote(s)
